@@ -3,6 +3,7 @@ import GoRes.Driver.Pat
 import GoRes.Driver.Mux
 import GoRes.Driver.Subs
 import GoRes.Driver.Store
+import GoRes.Driver.Req
 /-! `gores-driver <domain>`: one op line in, one line `model<TAB>spec<TAB>tag` out. -/
 open GoRes GoRes.Wire
 
@@ -28,6 +29,8 @@ def stepLine (dom : String) (st : DState) (full : String) : DState × String :=
     | "store" =>
       let (ss, m, s, t) := GoRes.Driver.Store.run st.store args impl
       ({ st with store := ss }, m ++ "\t" ++ s ++ "\t" ++ t)
+    | "req" | "req04" | "req05" | "req07" | "req08" =>
+      let (m, s, t) := GoRes.Driver.Req.run dom args impl; (st, m ++ "\t" ++ s ++ "\t" ++ t)
     | "subs" => let (m, s, t) := GoRes.Driver.Subs.run args impl; (st, m ++ "\t" ++ s ++ "\t" ++ t)
     | _ => (st, "bad-domain\t-\tbad")
 
